@@ -1,6 +1,7 @@
 package main
 
 import (
+	"sort"
 	"fmt"
 	"go/ast"
 	"go/types"
@@ -25,60 +26,99 @@ func isMutatingRepoMethod(f *ssa.Function) bool {
 // R16.3 refused means unchanged
 func ruleR16_3(w *World, r *Report) {
 	u := w.Server()
-	r.Rule("R16.3", "inside the handler goroutine, storage is mutated only by commitToMongoDB, which is the last step and runs only when every earlier step succeeded; every other step reaches no mutating repository method", 6)
+	r.Rule("R16.3", "inside the handler goroutine, storage is mutated only by the final commit step(s) (operation insert and datatype update): no step that can refuse the request reaches a mutating repository method or can run after one", 6)
 	proc := u.Fn(pService, "PushPullHandler", "process")
 	if proc == nil {
 		r.Lost("PushPullHandler.process")
 		return
 	}
 	v := newCGView(u, w.Thorough)
+	// the steps of the goroutine: calls of service functions other than the deferred exit function
+	type step struct {
+		c        ssa.CallInstruction
+		f        *ssa.Function
+		mutating *ssa.Function
+		pred     map[*ssa.Function]*ssa.Function
+	}
+	var steps []step
 	for _, c := range callsIn(proc) {
 		f := staticCallee(c)
 		if f == nil || f.Pkg == nil || f.Pkg.Pkg.Path() != pService {
 			continue
 		}
-		if oldFuncName(f) == "finalize" || oldFuncName(f) == "commitToMongoDB" {
+		if _, isDefer := c.(*ssa.Defer); isDefer || oldFuncName(f) == "finalize" {
 			continue
 		}
-		pred := v.reach([]*ssa.Function{f}, nil)
-		var hit *ssa.Function
-		for g := range pred {
+		st := step{c: c, f: f, pred: v.reach([]*ssa.Function{f}, nil)}
+		var names []string
+		for g := range st.pred {
 			if isMutatingRepoMethod(g) {
-				hit = g
+				names = append(names, fnName(g))
 			}
 		}
-		if hit != nil {
-			r.Bad("PushPullHandler.process/"+f.Name()+" does not mutate storage", u.Pos(c.Pos()), "a step before the commit reaches "+fnName(hit)+": a request refused later has already changed stored data", pathTo(pred, hit)...)
-		} else {
-			r.OK("PushPullHandler.process/"+f.Name()+" does not mutate storage", u.Pos(c.Pos()), fmt.Sprintf("%d reachable functions, none mutating", len(pred)))
+		sort.Strings(names)
+		for g := range st.pred {
+			if len(names) > 0 && fnName(g) == names[0] {
+				st.mutating = g
+			}
+		}
+		steps = append(steps, st)
+	}
+	// a step that changes stored data is a commit step; every other step must not be able to run
+	// after one (its refusal would come after data was stored), so all commit steps come last
+	var commits []step
+	for _, st := range steps {
+		if st.mutating != nil {
+			commits = append(commits, st)
 		}
 	}
-	// the commit is the last step: nothing but returns after it
-	var commit ssa.CallInstruction
-	for _, c := range callsNamed(proc, "commitToMongoDB") {
-		commit = c
-	}
-	if commit == nil {
-		r.Lost("process: commitToMongoDB")
+	if len(commits) == 0 {
+		r.Lost("process: no step persists the push")
 		return
 	}
-	after := ""
-	for _, c := range callsIn(proc) {
-		if c != commit && reachableFrom(commit.(ssa.Instruction), c.(ssa.Instruction)) && has(handlerSteps, calleeName(c)) {
-			after = calleeName(c)
+	for _, st := range steps {
+		if st.mutating != nil {
+			continue
 		}
-	}
-	r.Check(after == "", "PushPullHandler.process/commit last", u.Pos(commit.Pos()), "no step after the commit", "the step "+after+" can run after the commit: its failure would refuse a request whose effects are already stored")
-	// the commit itself: the refusal exits of the commit precede its writes or follow a failed write
-	if cm := u.Fn(pService, "PushPullHandler", "commitToMongoDB"); cm != nil {
-		n := 0
-		for _, c := range callsIn(cm) {
-			if isMutatingRepoMethod(staticCallee(c)) {
-				n++
+		var before *step
+		for i := range commits {
+			if reachableFrom(commits[i].c.(ssa.Instruction), st.c.(ssa.Instruction)) {
+				before = &commits[i]
 			}
 		}
-		r.Check(n == 2, "commitToMongoDB/writes", u.Pos(cm.Pos()), "InsertOperations and UpdateDatatype", fmt.Sprintf("the commit performs %d repository writes, expected the operation insert and the datatype update", n))
+		cons := "PushPullHandler.process/" + st.f.Name() + " does not follow a write"
+		if before != nil && errResultOfFn(st.f) {
+			r.Bad(cons, u.Pos(st.c.Pos()), "the step "+st.f.Name()+" can run after "+before.f.Name()+", which reaches "+fnName(before.mutating)+": a request refused by it has already changed stored data", pathTo(before.pred, before.mutating)...)
+		} else {
+			r.OK(cons, u.Pos(st.c.Pos()), fmt.Sprintf("%d reachable functions, none mutating; not after a commit step", len(st.pred)))
+		}
 	}
+	// the commit: exactly the operation insert and the datatype update
+	d := deepOf(proc)
+	var writes []string
+	d.each(func(x dins) {
+		if c, ok := x.in.(*ssa.Call); ok && isMutatingRepoMethod(staticCallee(c)) {
+			for a := x.n; a != nil; a = a.parent {
+				if a.site != nil {
+					if _, isDefer := a.site.(*ssa.Defer); isDefer {
+						return
+					}
+				}
+			}
+			writes = append(writes, calleeName(c))
+		}
+	})
+	sort.Strings(writes)
+	r.Check(strings.Join(writes, ",") == "InsertOperations,UpdateDatatype", "push commit/writes", u.Pos(commits[0].c.Pos()), "InsertOperations and UpdateDatatype", fmt.Sprintf("the handler goroutine performs the repository writes %v, expected the operation insert and the datatype update", writes))
+}
+
+func errResultOfFn(f *ssa.Function) bool {
+	res := f.Signature.Results()
+	if res.Len() == 0 {
+		return false
+	}
+	_, isIface := res.At(res.Len() - 1).Type().Underlying().(*types.Interface)
+	return isIface
 }
 
 // R16.6 every RPC method answers
